@@ -117,6 +117,47 @@ pub fn run(args: &Args) -> Report {
         }
     });
     total.merge(rep);
+    // ---- the query phase draws exactly n_queries challenges, whatever the samples are (small domains:
+    // repeated samples are the rule here, while no shipped proof has one)
+    {
+        use starknet_crypto::Felt;
+        use swiftness_stark::queries::generate_queries;
+        use swiftness_transcript::transcript::Transcript;
+        use swiftness_transcript::verif::{self as vh, Event};
+        let mut rng = base.fork("query-phase");
+        let mut rep = Report::new();
+        for e in 1..=10u32 {
+            for n in [1u64, 2, 5, 16, 48, 1 << e, (1 << e) + 3] {
+                for _ in 0..(if thorough { 20 } else { 3 }) {
+                    let d0 = rng.felt();
+                    let c0 = rng.below(4);
+                    let mut t = Transcript::new(d0);
+                    for _ in 0..c0 {
+                        t.random_felt_to_prover();
+                    }
+                    vh::start(u64::MAX);
+                    let out = vcommon::guard::catch(|| {
+                        let q = generate_queries(&mut t, Felt::from(n), Felt::from(1u64 << e));
+                        (q, *t.digest(), *t.counter())
+                    });
+                    let ev = vh::take();
+                    let d = json!({"digest": vcommon::hex(&d0), "counter": c0, "n_queries": n, "log_domain": e});
+                    rep.case(&d.to_string(), true);
+                    let Ok((q, dig, ctr)) = out else { continue };
+                    rep.inc("query_phase.runs");
+                    if (q.len() as u64) < n {
+                        rep.inc("query_phase.runs_with_repeated_samples");
+                    }
+                    let squeezes = ev.iter().filter(|x| matches!(x, Event::Squeeze { .. })).count() as u64;
+                    let others = ev.len() as u64 - squeezes;
+                    if squeezes != n || others != 0 || dig != d0 || ctr != Felt::from(c0 + n) {
+                        rep.violation("C08|trace|query-phase-challenge-count", &format!("the query phase drew {squeezes} challenges (and {others} other transcript operations) for n_queries = {n}; the transcript counter went from {c0} to {}", vcommon::hex(&ctr)), d);
+                    }
+                }
+            }
+        }
+        total.merge(rep);
+    }
     total.note("every verification run is checked by the online trace monitor: unbroken sponge chain, seed = public-input digest, absorbed messages = exactly (original root, interaction root, composition root, the OODS vector as one message, n_layers-1 FRI roots, the last layer as one message, the nonce), expected number of challenges between them; rejected runs must be a prefix");
     total
 }
